@@ -122,3 +122,42 @@ package extendeddaemonset
 //@             && (upToDate == nil || rsList.Items[i].ObjectMeta.Name != upToDate.ObjectMeta.Name)
 //@             && shouldDeleteERS(now, &rsList.Items[i])
 //@   loop 1 invariant old(loglen()) <= loglen()
+//@
+//@ func clearCanaryAnnotations
+//@   requires eds != nil
+//@   modifies mapof(eds.ObjectMeta.Annotations)
+//@   loop 1 invariant true
+//@   loop 1 modifies mapof(eds.ObjectMeta.Annotations)
+//@
+//@ func (*Reconciler).selectNodes
+//@   trusted
+//@   logs
+//@   requires canaryStatus != nil
+//@   modifies canaryStatus.Nodes
+//@   ensures only-lists: forall k int :: lognew(k) ==> logverb(k) == "List"
+//@
+//@ import corev1 "k8s.io/api/core/v1"
+//@ spec fn sameTemplateScalars(a *corev1.PodTemplateSpec, b *corev1.PodTemplateSpec) bool =
+//@     a.Spec.ServiceAccountName == b.Spec.ServiceAccountName && a.Spec.SchedulerName == b.Spec.SchedulerName
+//@     && a.Spec.PriorityClassName == b.Spec.PriorityClassName && a.Spec.HostNetwork == b.Spec.HostNetwork
+//@     && a.Spec.DNSPolicy == b.Spec.DNSPolicy && a.Spec.RestartPolicy == b.Spec.RestartPolicy
+//@     && a.Spec.NodeName == b.Spec.NodeName && a.Spec.HostPID == b.Spec.HostPID
+//@
+//@ func (*Reconciler).updateInstanceWithCurrentRS
+//@   logs
+//@   requires r != nil && r.client != nil && daemonset != nil && upToDate != nil
+//@   requires daemonset.Spec.Strategy.Canary != nil ==> current != nil
+//@   modifies nothing
+//@   let failed = daemonset.Spec.Strategy.Canary != nil && IsCanaryDeploymentFailed(upToDate)
+//@   ensures [C07,C11] writes-are-status-then-spec: forall k int :: lognew(k) ==> (logverb(k) == "StatusUpdate" || logverb(k) == "Update" || logverb(k) == "List")
+//@   ensures [C07,C11] spec-write-directly-follows-status-write: forall k int :: lognew(k) && logverb(k) == "Update" ==>
+//@             old(loglen()) < k && logverb(k - 1) == "StatusUpdate" && logobj(k - 1) == logobj(k)
+//@   ensures [C07] rollback-status: failed ==> forall k int :: lognew(k) && logverb(k) == "StatusUpdate" ==>
+//@             cast(logobj(k), "*v1.ExtendedDaemonSet").Status.Canary == nil
+//@             && cast(logobj(k), "*v1.ExtendedDaemonSet").Status.State == "Canary Failed"
+//@             && cast(logobj(k), "*v1.ExtendedDaemonSet").Status.ActiveReplicaSet == current.ObjectMeta.Name
+//@   ensures [C07] rollback-restores-template: failed && result2 == nil ==> result != nil && sameTemplateScalars(&result.Spec.Template, &current.Spec.Template)
+//@   ensures [C07] rollback-spec-write-carries-template: failed ==> forall k int :: lognew(k) && logverb(k) == "Update" ==>
+//@             sameTemplateScalars(&cast(logobj(k), "*v1.ExtendedDaemonSet").Spec.Template, &current.Spec.Template)
+//@   ensures [C05,C14] active-is-current: current != nil ==> forall k int :: lognew(k) && logverb(k) == "StatusUpdate" ==>
+//@             cast(logobj(k), "*v1.ExtendedDaemonSet").Status.ActiveReplicaSet == current.ObjectMeta.Name
